@@ -652,8 +652,8 @@ def _sympath_remove(self):
 
 def _sympath_rmdir(self):
     c = cur()
-    c.event("Path.rmdir", path=self)
     fails = c.fresh(c.fresh_name("rmdir.fails"), BOOL)
+    c.event("Path.rmdir", path=self, fails=fails)
     if c.fork(fails):
         raise OSError("rmdir failed [assumed contract of Path.rmdir]")
     return self
